@@ -1,7 +1,7 @@
 (* C12 - discriminated unions pick exactly the tagged class in any definition order.
    Model: Verif.Discr (state machine), reference notions: Verif.DiscrSpec. *)
 From Coq Require Import List Arith Bool.
-From Verif Require Import Discr DiscrSpec DiscrProofs DiscrKF DiscrRef.
+From Verif Require Import Discr DiscrSpec DiscrProofs DiscrRef.
 Import ListNotations.
 
 (* invariant over arbitrary histories: every registry of every site holds only true bindings
@@ -176,16 +176,23 @@ Proof.
 Qed.
 Print Assumptions C12_class_level_self_excluded.
 
-(* Known finding C12/nofield-inherited-unpacker, exhibited in the faithful model DiscrKF (no-field mode through a
-   nailed holder over plain dataclasses): once C0's unpacker is compiled, C1(C0) - eligible and accepting - is skipped,
-   which contradicts the no-field clause; without the earlier decode the same call answers C1. *)
-Theorem C12_nofield_inherited_unpacker_refuted :
-  nth_error (krun kf_sites (kf_pre ++ [Decode 1 [] [0; 1]])) 3 = Some (Some ONotFound)
-  /\ ~ nofield_spec acc_req (defs kf_pre) (Site [1] false true false false false false 0 0 false) [0; 1] ONotFound
-  /\ nofield_spec acc_req (defs kf_pre) (Site [1] false true false false false false 0 0 false) [0; 1] (OInst 1)
-  /\ nth_error (krun kf_sites [Define [] [] [] [0] false; Define [0] [] [] [1] false; Decode 1 [] [0; 1]]) 2 = Some (Some (OInst 1)).
-Proof. exact nofield_inherited_unpacker_refuted. Qed.
-Print Assumptions C12_nofield_inherited_unpacker_refuted.
+(* Former known finding C12/nofield-inherited-unpacker (repaired by /repo 233f7d4: an unpacker that is only INHERITED
+   counts as not compiled): no-field mode has no state at all - the answer through site 1 is C1 whether or not C0's
+   unpacker was compiled by an earlier decode through another site (instance of C12_nofield). *)
+Definition pl_sites : list site :=
+  [Site [0] false true false false false false 0 0 false; Site [1] false true false false false false 0 0 false].
+Definition pl_pre : list op := [Define [] [] [] [0] false; Define [0] [] [] [1] false; Decode 0 [] [0]].
+Theorem C12_nofield_plain_holder :
+  snd (step acc_req pl_sites (final acc_req pl_sites pl_pre) (Decode 1 [] [0; 1])) = Some (OInst 1)
+  /\ snd (step acc_req pl_sites (final acc_req pl_sites [Define [] [] [] [0] false; Define [0] [] [] [1] false]) (Decode 1 [] [0; 1])) = Some (OInst 1)
+  /\ nofield_spec acc_req (defs pl_pre) (Site [1] false true false false false false 0 0 false) [0; 1] (OInst 1).
+Proof.
+  split; [reflexivity|]. split; [reflexivity|].
+  destruct (C12_nofield acc_req pl_sites pl_pre 1 (Site [1] false true false false false false 0 0 false) [] [0; 1]
+              eq_refl eq_refl eq_refl (fun c _ => eq_refl)) as [o [E S]].
+  vm_compute in E. injection E as <-. exact S.
+Qed.
+Print Assumptions C12_nofield_plain_holder.
 
 (* Two levels of class-level dispatchers with DIFFERENT keys (outer key 0, inner key 1): outer tag valid, inner key
    absent -> MissingDiscriminator (the inner error is not a KeyError, the outer dispatcher lets it through); inner key
